@@ -1627,3 +1627,134 @@ def type_hooks_keep_no_state(ctx):
                 (f"`{short(ws[0][1], 60)}` in `{ws[0][0]}` writes to the type object while answering a question about one class: two threads asking about different classes at once (or one question interrupted by another) read each other's half-written answer, so a method is wrongly matched, wrongly skipped or reported ambiguous" if ws else ""),
             )
     ctx.require(n >= 8, "expected the type hooks of the package's own types")
+
+
+# ---------------------------------------------------------------------------------------- serial numbers
+_RESET_EXAMPLE = """
+_serial = count()
+
+def reset():
+    global _serial
+    _serial = count()
+
+def fresh():
+    return next(_serial)
+"""
+
+
+def _counter_rebinds(tree):
+    """(counter name, function node, statement) for every rebinding, inside a function, of a module-level name that is
+    consumed with next(..) somewhere in the module."""
+    consumed = {c.args[0].id for c in ast.walk(tree) if isinstance(c, ast.Call) and isinstance(c.func, ast.Name) and c.func.id == "next" and c.args and isinstance(c.args[0], ast.Name)}
+    top = set()
+    for st in tree.body:
+        if isinstance(st, ast.Assign):
+            top |= {t.id for t in st.targets if isinstance(t, ast.Name)}
+    counters = consumed & top
+    out = []
+    for f in ast.walk(tree):
+        if not isinstance(f, (ast.FunctionDef, ast.AsyncFunctionDef)):
+            continue
+        declared = {n for g in ast.walk(f) if isinstance(g, ast.Global) for n in g.names} & counters
+        if not declared:
+            continue
+        for st in ast.walk(f):
+            targets = st.targets if isinstance(st, ast.Assign) else [st.target] if isinstance(st, (ast.AugAssign, ast.AnnAssign)) else []
+            for t in targets:
+                for x in ast.walk(t):
+                    if isinstance(x, ast.Name) and x.id in declared:
+                        out.append((x.id, f, st))
+    return counters, out
+
+
+def serial_counters_are_never_reset(ctx):
+    """The module-level counters that hand out serial numbers (for function objects, planted globals, generated names)
+    only ever count up: no function of the package rebinds one."""
+    cs, hits = _counter_rebinds(ast.parse(_RESET_EXAMPLE))
+    if cs != {"_serial"} or len(hits) != 1:
+        raise AnalysisError("counter rule no longer recognises its positive example")
+    repo = ctx.repo
+    total = 0
+    for mod in repo.modules.values():
+        counters, hits = _counter_rebinds(mod.tree)
+        # also: `module.counter = ...` from another module of the package
+        for other in repo.modules.values():
+            for st in ast.walk(other.tree):
+                if isinstance(st, ast.Assign):
+                    for t in st.targets:
+                        if isinstance(t, ast.Attribute) and t.attr in counters and isinstance(t.value, ast.Name) and t.value.id == mod.name.split(".")[-1]:
+                            hits.append((t.attr, None, st))
+        for c in sorted(counters):
+            total += 1
+            mine = [h for h in hits if h[0] == c]
+            ctx.ob(
+                f"{mod.name}.{c}:never-reset",
+                f"{mod.rel}:{mine[0][2].lineno}" if mine else f"{mod.rel}:1",
+                f"the serial-number counter `{c}` of {mod.rel} is only consumed with next(..), never rebound",
+                not mine,
+                (f"`{short(mine[0][2], 40)}`" + (f" in {mine[0][1].name}()" if mine[0][1] is not None else "") + f" restarts the counter `{c}`: numbers handed out before are handed out again - to another thread that is in the middle of generating code (two names of one generated function collide and one check answers for another), or to another method whose planted global is then overwritten" if mine else ""),
+            )
+    ctx.require(total >= 3, "expected the package's serial-number counters")
+
+
+# ---------------------------------------------------------------------------------------- who may rebuild
+def only_changes_rebuild(ctx):
+    """The update method ("rebuild if already built, then tell the children") empties the resolution cache.  It is
+    called by the methods that change the method set - those that first pass the modification guard - and by itself
+    for the children; the unconditional build is called only where the function was found not built (first call,
+    ensure-built) and by the update method.  Reading, inspecting or calling a function never rebuilds it."""
+    from .common import path_atoms
+
+    repo = ctx.repo
+    oc = A.function_class(repo)
+    upd = A.update_method(repo)
+    guard = A.guard_method(repo)
+    b = A.build_method(repo)
+    n = 0
+
+    def own_nodes(fnode):
+        todo = list(ast.iter_child_nodes(fnode))
+        while todo:
+            x = todo.pop()
+            yield x
+            if not isinstance(x, (ast.FunctionDef, ast.AsyncFunctionDef, ast.Lambda)):
+                todo.extend(ast.iter_child_nodes(x))
+
+    for f in repo.all_funcs():
+        for c in own_nodes(f.node):
+            if not (isinstance(c, ast.Call) and isinstance(c.func, ast.Attribute)):
+                continue
+            if c.func.attr == upd.name:
+                n += 1
+                ctx.touch(f)
+                rv = recv_name(f) if f.cls is not None else None
+                is_mutator = f.cls is oc and any(isinstance(x, ast.Call) and is_self_attr(x.func, guard.name, selfname=rv) for x in ast.walk(f.node))
+                ok = f is upd or is_mutator
+                ctx.ob(
+                    f"{f.key}:calls-{upd.name}",
+                    f.loc(c),
+                    f"`{short(c, 40)}` in {f.name}() is a change of the method set (the method passes the modification guard) or the propagation to a child",
+                    ok,
+                    f"{f.name}() is not a change of the method set but calls `{short(c, 40)}`: merely reading or inspecting the function rebuilds its table and empties the resolution cache, so the next calls with argument types already seen consult the class predicates and type-order hooks again",
+                )
+            elif c.func.attr == b.name and not c.args and not c.keywords:
+                # the unconditional build of a function object
+                recv = c.func.value
+                rv = recv_name(f) if f.cls is not None else None
+                on_function = (f.cls is oc and isinstance(recv, ast.Name) and recv.id == rv) or (isinstance(recv, ast.Name) and recv.id in ("ov", "ovld", "fn", "self") and f.cls is None)
+                if not on_function:
+                    continue
+                n += 1
+                ctx.touch(f)
+                atoms_ = path_atoms(f.node, c)
+                not_built = any(a[0] == "falsy" and isinstance(a[1], ast.Attribute) and a[1].attr == "_compiled" for a in atoms_)
+                is_first_entry = f.parent is not None and f.cls is None  # the first-call trampoline: replaced by the build it starts
+                ok = f is upd or not_built or is_first_entry
+                ctx.ob(
+                    f"{f.key}:calls-{b.name}",
+                    f.loc(c),
+                    f"`{short(c, 30)}` in {f.name}() runs in the update method, on a function found not built, or from the first-call trampoline",
+                    ok,
+                    f"{f.name}() rebuilds unconditionally (`{short(c, 30)}`): a function already in use loses its resolution cache, and calls with argument types already seen run the whole resolution - user predicates and hooks included - again",
+                )
+    ctx.require(n >= 7, "expected the call sites of the update and build methods")
